@@ -49,6 +49,22 @@ impl Payload for Raw {
     }
 }
 
+/// Identity payload of an encoding that has its own header suffix ("v4c.local."), as the
+/// specification reserves for non-JSON encodings: the suffix is part of the authenticated header.
+#[derive(Clone, Debug, PartialEq, Eq)]
+pub struct RawC(pub Vec<u8>);
+
+impl Payload for RawC {
+    const SUFFIX: &'static str = "c";
+    fn encode(self, mut writer: impl WriteBytes) -> Result<(), Box<dyn Error + Send + Sync>> {
+        writer.write(&self.0);
+        Ok(())
+    }
+    fn decode(payload: &[u8]) -> Result<Self, Box<dyn Error + Send + Sync>> {
+        Ok(RawC(payload.to_vec()))
+    }
+}
+
 /// Recording payload: counts decoder invocations and fails on a marker prefix, so that the
 /// outcome of decoding depends on the (possibly unauthenticated) bytes.
 #[derive(Clone, Debug, PartialEq, Eq)]
